@@ -34,6 +34,8 @@ def C10_1(ctx, facts):
     # returned at once and unchanged, whatever the shape of the loops
     import patable
     patable.table(ctx, facts)
+    # ... given join_next's contract, which is a table of its own
+    patable.join_next_table(ctx, facts)
     j = facts.unit(facts.fn(JN), expand=True)
     ctx.touched(j)
     eo = j.aggregates("happy_eyeballs::Eyeball", "Ok")
@@ -76,7 +78,10 @@ def C10_4(ctx, facts):
     for (b, s) in stores:
         g, w = j.guarded(b, L_opt(j, False, lambda rr: any(r.kind == "arg" and "error" in r.desc for r in rr)))
         ctx.check(g, "join_next|first-error-kept", "self.error is written only while it is still None: the first failure observed is the one reported", "a later error can overwrite the first one", j.where(b), j.path_desc(w))
-    # which failure process_all reports (the stored error, NoProgress only without one) is part of the trace table (C10.1)
+    # which failure process_all reports (the stored error, NoProgress only without one) is part of the trace table (C10.1);
+    # that join_next remembers exactly the first failure is a row of its own table
+    import patable
+    patable.join_next_table(ctx, facts)
     f = facts.unit(facts.fn(PA), expand=True)
     home = {f.nkey} | {norm(k) for k in f.inlined}
     other_np = [g.nkey for g in facts.fns.values() if g.nkey not in home and g.nkey.startswith("happy_eyeballs") and g.aggregates("happy_eyeballs::HappyEyeballsError", "NoProgress")]
